@@ -598,7 +598,7 @@ def write_evidence(pid, tier, seed, mod, hs, aggs, wall, rc, known_lines, extra=
             "functions_encoded": sorted("%s:%s" % f for f in tot.funcs),
             "source_sha256_16": source_hashes(),
             "harnesses": per,
-            "outside_bounds": getattr(mod, "OUTSIDE", []),
+            "outside_bounds": getattr(mod, "OUTSIDE", []) + (COMMON_OUTSIDE if pid in SCENARIO_PROPS else []),
             "known_findings_reported": known_lines,
             "engine": "symx (own z3 path explorer, /verif/symx) on z3 %s" % _z3_version(),
         },
@@ -618,6 +618,18 @@ def write_evidence(pid, tier, seed, mod, hs, aggs, wall, rc, known_lines, extra=
     with open(os.path.join(HERE, "evidence", "%s.json" % pid), "w") as f:
         json.dump(ev, f, indent=1, default=str)
 
+
+COMMON_OUTSIDE = [
+    "anything beyond the templates and free parameters listed under coverage.harnesses.*.bounds: more jobs, deeper "
+    "nesting, other ways of building or re-using the objects",
+    "several runs of one scheduler object (except the edge-free re-run harness of C04); a job placed in two schedulers",
+    "flags (critical, forever) or timeouts changed while the scheduler runs; jobs calling their scheduler's API "
+    "(list(), exit_jobs(), add()) from inside a run",
+    "job classes other than AbstractJob subclasses and Job(coroutine) (e.g. PrintJob); jobs that swallow "
+    "CancelledError or whose task ends cancelled by itself; shutdown handlers that raise",
+    "non-integer windows; floating-point rounding of deadlines; event loops other than the virtual-time loop "
+    "(validated against the stock loop on tie-free scenarios); threads",
+]
 
 COMMON_ASSUMPTIONS = [
     "CPython 3.12 and its asyncio primitives (Task, Future, wait, gather, Queue, sleep) are trusted; they are "
